@@ -17,12 +17,15 @@ Decided statically on the CFG of every instantiated member (payloads int / doubl
   R-C12-3  TransactionalValue::update(): returns true exactly on the paths that install (currentValue <- queuedValue);
            installs only after observing the flag set, and whenever it observed it set; the flag is reset inside the same
            lock scope as the install.
+  (all rules) the entry points are the public members; calls to functions defined in the class's own header (private helpers,
+           member templates, closures invoked directly) are followed with the lock state and the automaton state carried
+           through (rkstatic.x_sync.Inliner), so a critical section that lives in a helper counts for its callers.
   R-C12-4  TransactionalValue assignment (producer): on every path the argument is stored into queuedValue and the flag is
            set, both inside one lock scope.
 """
 import re
 
-from rkstatic.x_sync import Sync, LockState, CALLS, last, is_atomic_type
+from rkstatic.x_sync import Sync, LockState, Inliner, Hooks, CALLS, last, is_atomic_type
 
 LEVEL = 'other'
 EXPLANATION = (
@@ -67,14 +70,18 @@ def fn_short(f):
 
 
 class Found:
-    def __init__(self, file):
+    def __init__(self, file, inl=None):
         self.file = file
+        self.inl = inl
         self.v = {}
         self.u = {}
 
     def viol(self, rule, fn, detail, why, node, at=None):
         key = '%s|%s|%s|%s' % (rule, self.file, fn, detail)
-        self.v.setdefault(key, (rule, why, node, at))
+        chain = []
+        if at is None and self.inl is not None and self.inl.stack:
+            at, chain = self.inl.at, self.inl.chain()      # position in the entry function + helper call chain
+        self.v.setdefault(key, (rule, why, node, at, chain))
 
     def und(self, rule, why, node):
         self.u.setdefault((rule, why), node)
@@ -93,13 +100,14 @@ def render_path(tu, g, keys):
 def emit(ctx, tu, g, res, found, instance, rules_ok, loc, okmsg):
     bad = set()
     und_rules = {rule for (rule, _w) in found.u}
-    for key, (rule, why, node, at) in found.v.items():
+    for key, (rule, why, node, at, chain) in found.v.items():
         if rule in und_rules:
             continue
         bad.add(rule)
         path = []
         if at is not None and res is not None:
             path = render_path(tu, g, res.path_to(*at))
+        path += chain
         if node is not None:
             path.append('%s: %s' % (tu.loc(node), tu.show(node)))
         ctx.violation(rule, instance, why, tu.loc(node) if node is not None else loc, key=key, path=path)
@@ -109,6 +117,40 @@ def emit(ctx, tu, g, res, found, instance, rules_ok, loc, okmsg):
     for rule in rules_ok:
         if rule not in bad:
             ctx.ok(rule, instance, okmsg.get(rule, ''), loc)
+
+
+def inliner(tu, T):
+    """calls to functions defined in the class's own header (private helpers, member templates, closures invoked directly) are
+    followed: lock state and automaton state are carried into the callee and back"""
+    cache = tu.__dict__.setdefault('_c12_inl', {})
+    if T['file'] not in cache:
+        cache[T['file']] = Inliner(tu, lambda cf, file=T['file']: tu.fn_file(cf) == file)
+    return cache[T['file']]
+
+
+class C12Hooks(Hooks):
+    """binds helper parameters that receive (an expression mentioning) one of the tracked argument declarations"""
+
+    def __init__(self, sy, found, rule, ids=None):
+        self.sy, self.found, self.rule, self.ids = sy, found, rule, ids
+
+    def pre_call(self, n, cf, args, st):
+        if self.ids is not None:
+            for p, a in zip(cf.get('params', []), args):
+                if any(self.sy.mentions_var(a, i) for i in list(self.ids)):
+                    self.ids.add(p['id'])
+        return [st]
+
+    def problem(self, msg, n):
+        self.found.und(self.rule, msg, n)
+
+
+def mentions_any(sy, e, ids):
+    return any(sy.mentions_var(e, i) for i in ids)
+
+
+def is_public(f):
+    return f.get('access') in (None, 'public', 'none')
 
 
 def exit_at(res, via):
@@ -151,26 +193,32 @@ def nearest_user(tu, n):
 
 def check_guarded(ctx, tu, sy, rec, T, f, counts):
     g = tu.cfg(f)
-    found = Found(T['file'])
+    inl = inliner(tu, T)
+    found = Found(T['file'], inl)
     cur = {}
-    FN = fn_short(f)
     name = last(f['q'])
     mutex = (rec, T['mutex'])
     nacc = [0]
-    ret_ref = f['fty'].split('(')[0].strip().endswith(('&', '*'))
-    public = f.get('access') in (None, 'public', 'none')
+    public = is_public(f)
+
+    def cur_fn():               # the function the explored element belongs to (the entry or a followed helper)
+        return inl.stack[-1] if inl.stack else f
 
     def unlocked(rule, fn, detail, why, node):
         if public:
-            found.viol(rule, fn, detail, why, node, cur.get('at'))
+            found.viol(rule, fn, detail, why, node)
         else:
             found.und(rule, 'non-public member accesses a guarded member without taking the lock itself; whether every caller holds '
                       'it is not modelled', node)
 
-    # 3. guarded members used inside a nested closure are outside this CFG
-    for lam in tu.walk(tu.body(f)) if tu.body(f) is not None else ():
-        if lam.get('kind') == 'LambdaExpr' and any(sy.mentions_field(lam, (rec, gname)) for gname in T['guarded']):
-            found.und(R1, 'a guarded member is used inside a nested lambda: not modelled', lam)
+    # 3. guarded members used inside a nested closure that is not invoked directly are outside the explored CFGs
+    reach = inl.reachable_fns(f)
+    reach_ids = {x['id'] for x in reach}
+    for fn in reach:
+        for lam in tu.walk(tu.body(fn)) if tu.body(fn) is not None else ():
+            if lam.get('kind') == 'LambdaExpr' and tu.sd(lam).get('op') not in reach_ids and \
+                    any(sy.mentions_field(lam, (rec, gname)) for gname in T['guarded']):
+                found.und(R1, 'a guarded member is used inside a nested lambda that is not called directly: not modelled', lam)
 
     def transfer(blk, i, e, st):
         if i == 0:
@@ -192,7 +240,7 @@ def check_guarded(ctx, tu, sy, rec, T, f, counts):
                     found.und(R1, 'read-modify-write %s on the atomic member %s outside the lock: a lock-free hand-off protocol, not '
                               'modelled' % (ev[2], ev[1][1]), n)
                 else:
-                    unlocked(R1, FN, '%s-unlocked' % ev[1][1], 'the atomic member %s is written outside a lock scope of %s; the flag and '
+                    unlocked(R1, fn_short(cur_fn()), '%s-unlocked' % ev[1][1], 'the atomic member %s is written outside a lock scope of %s; the flag and '
                              'the queued value must change together' % (ev[1][1], T['mutex']), n)
             return [st]
         if n.get('kind') != 'MemberExpr':
@@ -215,23 +263,24 @@ def check_guarded(ctx, tu, sy, rec, T, f, counts):
             nacc[0] += 1
             if user is not None and user.get('kind') == 'UnaryOperator' and user.get('opcode') == '&':
                 found.und(R1, 'address of the guarded member %s is taken: escapes the lock scope' % fld[1], n)
-            if ret_ref and user is not None and user.get('kind') == 'ReturnStmt':
-                found.viol(R1, FN, '%s-escapes' % fld[1], 'a reference to the guarded member %s is returned: the caller uses it '
-                           'outside the lock' % fld[1], n, cur.get('at'))
+            if cur_fn()['fty'].split('(')[0].strip().endswith(('&', '*')) and user is not None and \
+                    user.get('kind') == 'ReturnStmt':
+                found.viol(R1, fn_short(cur_fn()), '%s-escapes' % fld[1], 'a reference to the guarded member %s is returned: the caller uses it '
+                           'outside the lock' % fld[1], n)
             if not LockState.holds(locks, mutex):
-                unlocked(R1, FN, '%s-unlocked' % fld[1], 'the member %s (guarded by %s) is accessed on a path where no lock on %s is '
+                unlocked(R1, fn_short(cur_fn()), '%s-unlocked' % fld[1], 'the member %s (guarded by %s) is accessed on a path where no lock on %s is '
                          'held: data race with the other thread\'s locked access' % (fld[1], T['mutex'], T['mutex']), n)
             return [st]
         if fld[1] in T['confined']:
             nacc[0] += 1
             if name in T['producer']:
-                found.viol(R1, FN, '%s-in-producer' % fld[1], 'the producer-side member %s touches the consumer-confined member %s'
-                           % (name, fld[1]), n, cur.get('at'))
+                found.viol(R1, fn_short(cur_fn()), '%s-in-producer' % fld[1], 'the producer-side member %s touches the consumer-confined member %s'
+                           % (name, fld[1]), n)
             elif name not in T['confined'][fld[1]]:
                 found.und(R1, 'member function %s is not classified as producer or consumer side but touches %s' % (name, fld[1]), n)
         return [st]
 
-    res = g.explore([(frozenset(), frozenset())], transfer, None)
+    res, _outs = inl.explore(f, [(frozenset(), frozenset())], transfer, None, C12Hooks(sy, found, R1))
     counts[R1] += 1
     inst = '%s %s' % (f['q'].replace('rkcommon::containers::', '').replace('rkcommon::utility::', ''), f['fty'])
     emit(ctx, tu, g, res, found, inst, (R1,), tu.fn_loc(f), {R1: '%d access(es) to guarded/confined members, all permitted' % nacc[0]})
@@ -274,12 +323,14 @@ def is_move(tu, sy, ctor_or_call):
 def check_buffer_ops(ctx, tu, sy, f, counts):
     T = TABLE[BUF]
     g = tu.cfg(f)
-    found = Found(T['file'])
+    inl = inliner(tu, T)
+    found = Found(T['file'], inl)
     cur = {}
     FN = fn_short(f)
     name = last(f['q'])
     fld = (BUF, 'buffer')
-    params = [p['id'] for p in f.get('params', [])]
+    params = {p['id'] for p in f.get('params', [])[:1]}      # the element (+ helper parameters bound to it)
+    hooks = C12Hooks(sy, found, R2, params)
     inst = '%s %s' % (f['q'].replace('rkcommon::containers::', ''), f['fty'])
     counts[R2] += 1
 
@@ -297,8 +348,8 @@ def check_buffer_ops(ctx, tu, sy, f, counts):
                 return [st]
             nm, args, const = bc
             if nm in APPEND:
-                if not (args and params and sy.mentions_var(args[0], params[0])):
-                    found.viol(R2, FN, 'appends-other-value', 'push_back appends something other than its argument', n, cur.get('at'))
+                if not (args and params and mentions_any(sy, args[0], params)):
+                    found.viol(R2, FN, 'appends-other-value', 'push_back appends something other than its argument', n)
                 return [min(st + 1, 2)]
             if const or nm in NEUTRAL:
                 return [st]
@@ -307,23 +358,23 @@ def check_buffer_ops(ctx, tu, sy, f, counts):
                 while pe is not None and pe.get('kind') in ('CXXConstructExpr', 'CXXTemporaryObjectExpr') and len(tu.kids(pe)) == 1:
                     pe = tu.strip(tu.kids(pe)[0], casts=True)       # iterator -> const_iterator conversion
                 pos = buffer_call(tu, sy, pe, fld) if pe is not None else None
-                if pos is not None and pos[0] in ('end', 'cend') and len(args) == 2 and params and sy.mentions_var(args[1], params[0]):
+                if pos is not None and pos[0] in ('end', 'cend') and len(args) == 2 and params and mentions_any(sy, args[1], params):
                     return [min(st + 1, 2)]
                 if pos is not None and pos[0] in ('begin', 'cbegin'):
                     found.viol(R2, FN, 'inserts-not-at-end', 'push_back inserts at the front of the buffer: elements of one producer are '
-                               'consumed in reverse push order', n, cur.get('at'))
+                               'consumed in reverse push order', n)
                     return [min(st + 1, 2)]
                 found.und(R2, 'positional %s on the buffer: append-equivalence not modelled' % nm, n)
                 return [st]
             if nm in DESTRUCTIVE:
                 found.viol(R2, FN, 'mutates-buffer', 'push_back calls %s() on the buffer: only appending is allowed on the producer side'
-                           % nm, n, cur.get('at'))
+                           % nm, n)
             else:
                 found.und(R2, 'non-const call %s() on the buffer in push_back: not modelled' % nm, n)
             return [st]
 
-        res = g.explore([0], transfer, None)
-        for (st, via) in res.exits:
+        res, outs = inl.explore(f, [0], transfer, None, hooks)
+        for (st, _rv, via) in outs:
             if g.blocks[via].noret:
                 continue
             if st == 0:
@@ -407,10 +458,10 @@ def check_buffer_ops(ctx, tu, sy, f, counts):
                 if nm == 'clear':
                     if not holders and ret != 'contents':
                         found.viol(R2, FN, 'consume-loses-elements', 'consume() clears the buffer before its content was handed to the '
-                                   'returned vector: pushed elements are lost', n, cur.get('at'))
+                                   'returned vector: pushed elements are lost', n)
                     return [('empty', holders, fresh, ret)]
                 if nm in APPEND:
-                    found.viol(R2, FN, 'mutates-buffer', 'consume() appends to the buffer', n, cur.get('at'))
+                    found.viol(R2, FN, 'mutates-buffer', 'consume() appends to the buffer', n)
                     return [st]
                 if const or nm in NEUTRAL:
                     return [st]
@@ -428,8 +479,8 @@ def check_buffer_ops(ctx, tu, sy, f, counts):
                     found.und(R2, 'local.%s(buffer): not modelled' % nm, n)
             return [st]
 
-        res = g.explore([('full', frozenset(), frozenset(), None)], transfer, None)
-        for (st, via) in res.exits:
+        res, outs = inl.explore(f, [('full', frozenset(), frozenset(), None)], transfer, None, hooks)
+        for (st, _rv, via) in outs:
             if g.blocks[via].noret:
                 continue
             bufst, holders, fresh, ret = st
@@ -460,16 +511,16 @@ def check_buffer_ops(ctx, tu, sy, f, counts):
                 return [st]
             if nm in APPEND or nm in DESTRUCTIVE or nm in ('insert', 'emplace'):
                 found.viol(R2, FN, 'mutates-buffer', '%s() calls %s() on the buffer: only push_back may add and only consume() may remove '
-                           'elements' % (name, nm), n, cur.get('at'))
+                           'elements' % (name, nm), n)
             else:
                 found.und(R2, 'non-const call %s() on the buffer in %s(): not modelled' % (nm, name), n)
             return [st]
         if n.get('kind') == 'CallExpr' and tu.sd(n).get('q') in ('std::move', 'std::swap') and \
                 any(is_buffer(tu, sy, a, fld) for a in tu.kids(n)[1:]):
-            found.viol(R2, FN, 'mutates-buffer', '%s() moves from / swaps the buffer' % name, n, cur.get('at'))
+            found.viol(R2, FN, 'mutates-buffer', '%s() moves from / swaps the buffer' % name, n)
         return [st]
 
-    res = g.explore([0], transfer, None)
+    res, _outs = inl.explore(f, [0], transfer, None, hooks)
     emit(ctx, tu, g, res, found, inst, (R2,), tu.fn_loc(f), {R2: 'does not mutate the buffer'})
 
 
@@ -489,7 +540,8 @@ def flag_token(tu, sy, atom, flag):
 def check_update(ctx, tu, sy, f, counts):
     T = TABLE[VAL]
     g = tu.cfg(f)
-    found = Found(T['file'])
+    inl = inliner(tu, T)
+    found = Found(T['file'], inl)
     cur = {}
     FN = fn_short(f)
     FLAG, QUEUED, CURRENT, mutex = (VAL, 'newValue'), (VAL, 'queuedValue'), (VAL, 'currentValue'), (VAL, T['mutex'])
@@ -500,10 +552,10 @@ def check_update(ctx, tu, sy, f, counts):
         if iscope and not rscope:
             found.viol(R3, FN, 'flag-not-reset-with-install', 'the lock scope that installs the queued value ends without resetting the '
                        'flag: an assignment made after the scope is lost when the flag is reset later (or the next update() installs '
-                       'a moved-from value)', node, cur.get('at'))
+                       'a moved-from value)', node)
         if rscope and not iscope:
             found.viol(R3, FN, 'flag-reset-without-install', 'the flag is reset in a lock scope that does not install the queued value: '
-                       'that value is never delivered', node, cur.get('at'))
+                       'that value is never delivered', node)
         return (locks, known, flag, inst, False, False, vars_)
 
     # state: (locks, known, flag, installed, inst_in_scope, reset_in_scope, boolvars)
@@ -549,7 +601,7 @@ def check_update(ctx, tu, sy, f, counts):
                 if w is not None and sy.mentions_field(w[2], QUEUED):
                     if flag is not True:
                         found.viol(R3, FN, 'install-without-flag', 'update() installs queuedValue on a path where the flag was not observed '
-                                   'set: the consumer can receive a stale or moved-from value', node, cur.get('at'))
+                                   'set: the consumer can receive a stale or moved-from value', node)
                     return [(locks, known, flag, True, True, rscope, vars_)]
                 found.und(R3, 'update() writes currentValue from something other than queuedValue', node)
                 return [st]
@@ -560,7 +612,7 @@ def check_update(ctx, tu, sy, f, counts):
             if fs == {CURRENT, QUEUED}:
                 if flag is not True:
                     found.viol(R3, FN, 'install-without-flag', 'update() installs queuedValue on a path where the flag was not observed set',
-                               n, cur.get('at'))
+                               n)
                 return [(locks, known, flag, True, True, rscope, vars_)]
         if k == 'ReturnStmt':
             ks = tu.kids(n)
@@ -571,17 +623,14 @@ def check_update(ctx, tu, sy, f, counts):
             if v is None:
                 found.und(R3, 'return value of update() is not a constant / a local with a known constant value on this path', n)
             elif v and not inst:
-                found.viol(R3, FN, 'returns-true-without-install', 'update() returns true on a path that did not install a new value', n,
-                           cur.get('at'))
+                found.viol(R3, FN, 'returns-true-without-install', 'update() returns true on a path that did not install a new value', n)
             elif not v and inst:
-                found.viol(R3, FN, 'returns-false-after-install', 'update() returns false on a path that installed a new value', n,
-                           cur.get('at'))
+                found.viol(R3, FN, 'returns-false-after-install', 'update() returns false on a path that installed a new value', n)
             if not inst and flag is True:
                 found.viol(R3, FN, 'flag-set-not-installed', 'update() observed the flag set but returns without installing the queued '
-                           'value', n, cur.get('at'))
+                           'value', n)
             if not inst and flag is None:
-                found.viol(R3, FN, 'no-flag-test', 'update() returns without installing on a path that never tested the flag', n,
-                           cur.get('at'))
+                found.viol(R3, FN, 'no-flag-test', 'update() returns without installing on a path that never tested the flag', n)
             return [st]
         return [st]
 
@@ -599,8 +648,9 @@ def check_update(ctx, tu, sy, f, counts):
                 return []
         return [st]
 
-    res = g.explore([(frozenset(), frozenset(), None, False, False, False, frozenset())], transfer, refine)
-    for (st, via) in res.exits:
+    res, outs = inl.explore(f, [(frozenset(), frozenset(), None, False, False, False, frozenset())], transfer, refine,
+                            C12Hooks(sy, found, R3))
+    for (st, _rv, via) in outs:
         if st[4] or st[5]:
             release(st, None)
     inst_name = '%s %s' % (f['q'].replace('rkcommon::utility::', ''), f['fty'])
@@ -611,21 +661,21 @@ def check_update(ctx, tu, sy, f, counts):
 def check_assign(ctx, tu, sy, f, counts):
     T = TABLE[VAL]
     g = tu.cfg(f)
-    found = Found(T['file'])
+    inl = inliner(tu, T)
+    found = Found(T['file'], inl)
     cur = {}
     FN = fn_short(f)
     FLAG, QUEUED, mutex = (VAL, 'newValue'), (VAL, 'queuedValue'), (VAL, T['mutex'])
-    params = [p['id'] for p in f.get('params', [])]
+    params = {p['id'] for p in f.get('params', [])[:1]}      # the assigned value (+ helper parameters bound to it)
     counts[R4] += 1
 
     def release(st, node):
         locks, known, q, fl, done = st
         if q and not fl:
             found.viol(R4, FN, 'flag-not-set', 'assignment stores the value into queuedValue but the lock scope ends without setting the '
-                       'flag: the consumer never picks the value up', node, cur.get('at'))
+                       'flag: the consumer never picks the value up', node)
         if fl and not q:
-            found.viol(R4, FN, 'flag-without-value', 'assignment sets the flag in a lock scope that does not store the value', node,
-                       cur.get('at'))
+            found.viol(R4, FN, 'flag-without-value', 'assignment sets the flag in a lock scope that does not store the value', node)
         return (locks, known, False, False, done or (q and fl))
 
     # state: (locks, known, queued_in_scope, flagged_in_scope, done)
@@ -651,13 +701,13 @@ def check_assign(ctx, tu, sy, f, counts):
                 found.und(R4, 'assignment stores something other than true to the flag', node)
             elif fld == QUEUED:
                 w = sy.plain_write(node)
-                if w is not None and params and sy.mentions_var(w[2], params[0]):
+                if w is not None and params and mentions_any(sy, w[2], params):
                     return [(locks, known, True, fl, done)]
                 found.und(R4, 'queuedValue is written from something other than the argument', node)
         return [st]
 
-    res = g.explore([(frozenset(), frozenset(), False, False, False)], transfer, None)
-    for (st, via) in res.exits:
+    res, outs = inl.explore(f, [(frozenset(), frozenset(), False, False, False)], transfer, None, C12Hooks(sy, found, R4, params))
+    for (st, _rv, via) in outs:
         if g.blocks[via].noret:
             continue
         if st[2] or st[3]:
@@ -743,6 +793,8 @@ def check_tu(ctx, tu, counts):
                 continue
             if f.get('ctor') or f.get('dtor'):
                 continue
+            if not is_public(f):
+                continue        # private helpers are analysed where they are called (followed from every public member)
             check_guarded(ctx, tu, sy, rec, T, f, counts)
             name = last(f['q'])
             if rec == BUF:
